@@ -45,9 +45,8 @@ const DESC_CHARS: [char; 20] = [
 const SEQ_CHARS: &[u8] = b"ACGTNacgtnRYKMSWBDHVUX*-.";
 
 fn gen_records(w: &World, kind: Kind, large: bool) -> Vec<Rec> {
-    let n = w.small(0, 6);
-    let mut v = Vec::new();
-    for _ in 0..n {
+    let mut v: Vec<Rec> = Vec::new();
+    while w.more(v.len() as u64, 6) {
         let id = string_from(w, &ID_CHARS, 1, 8);
         let desc = if w.chance(1, 2) {
             let mut d = string_from(w, &DESC_CHARS, 1, 12);
@@ -784,18 +783,9 @@ fn schedule_probes(w: &World, img: &Image, cuts: &[usize]) {
     }
 }
 
-fn note_common(w: &World, kind: Kind, recs: &[Rec], wcfg: Option<&WriterCfg>, rc: &ReaderCfg, img: &[u8]) {
+fn note_common(w: &World, rc: &ReaderCfg, img: &[u8]) {
     if !w.keep_trace {
         return;
-    }
-    w.note("format", json!(format!("{:?}", kind)));
-    w.note("workload", json!(recs.iter().map(|r| r.json()).collect::<Vec<_>>()));
-    if let Some(c) = wcfg {
-        w.note(
-            "writer",
-            json!({"ctor": (["new","with_capacity","from_bufwriter"][c.ctor as usize]), "cap": c.cap, "linewrap": c.wrap,
-                   "api": (["write","write_record","Display"][c.api as usize]), "explicit_flush": c.flush}),
-        );
     }
     w.note("reader", rc.json());
     w.note("stored_image", json!(show(img)));
@@ -859,7 +849,18 @@ fn roundtrip(w: &W, kind: Kind, with_cut: bool) -> Verdict {
     if recs.iter().any(|r| r.qual.first() == Some(&b'+')) {
         w.probe("quality_starts_with_plus");
     }
+    if w.keep_trace {
+        w.note("format", json!(format!("{:?}", kind)));
+        w.note("workload", json!(recs.iter().map(|r| r.json()).collect::<Vec<_>>()));
+    }
     let wcfg = gen_writer_cfg(w, kind, &recs);
+    if w.keep_trace {
+        w.note(
+            "writer",
+            json!({"ctor": (["new","with_capacity","from_bufwriter"][wcfg.ctor as usize]), "cap": wcfg.cap, "linewrap": wcfg.wrap,
+                   "api": (["write","write_record","Display"][wcfg.api as usize]), "explicit_flush": wcfg.flush}),
+        );
+    }
     // swarm: which fault kinds are enabled this run
     let faults_on = w.chance(3, 4);
     let eintr_on = faults_on && w.chance(1, 3);
@@ -922,7 +923,7 @@ fn roundtrip(w: &W, kind: Kind, with_cut: bool) -> Verdict {
     }
 
     let data = Rc::new(img.bytes.clone());
-    note_common(w, kind, &recs, Some(&wcfg), &rc, &data);
+    note_common(w, &rc, &data);
     if w.keep_trace {
         w.note("storage", json!(format!("{:?}", st)));
         w.note("writer_io", wio.json());
@@ -973,63 +974,119 @@ fn roundtrip(w: &W, kind: Kind, with_cut: bool) -> Verdict {
                 check_roundtrip(w, clause, &p, &recs, eintr_on)
             }
         }
-        Some(c) => {
-            w.clause("C11.d-nopanic");
-            // a cut exactly at a record boundary is a shorter well-formed file
-            let at_boundary = c == 0 || img.boundaries.contains(&c);
-            if at_boundary {
-                let j = if c == 0 { 0 } else { img.boundaries.iter().position(|b| *b == c).unwrap() + 1 };
-                if sniffing {
-                    if j == 0 {
-                        if !p.recs.is_empty() {
-                            return fail("C11.a-prefix", format!("empty file, but {} record(s) were read", p.recs.len()));
-                        }
-                        return Ok(());
-                    }
-                    match &p.kind_reported {
-                        None => {}
-                        Some(Ok(k)) if *k == kind => {}
-                        Some(Err(e)) if eintr_on && w.eintr_total.get() > 0 && e.contains("EINTR") => return Ok(()),
-                        other => return fail("C11.c-sniff", format!("wrote {:?}, sniffer reported {:?}", kind, other)),
+        Some(c) => judge_cut(w, kind, &recs, &img.boundaries, c, &p, sniffing, eintr_on),
+    }
+}
+
+/// Oracle for a stream cut at byte `c` (boundaries = offsets just after each record in the image).
+#[allow(clippy::too_many_arguments)]
+fn judge_cut(w: &World, kind: Kind, recs: &[Rec], boundaries: &[usize], c: usize, p: &Parsed, sniffing: bool, eintr_on: bool) -> Verdict {
+    w.clause("C11.d-nopanic");
+    // a cut exactly at a record boundary is a shorter well-formed file
+    let at_boundary = c == 0 || boundaries.contains(&c);
+    if at_boundary {
+        let j = if c == 0 { 0 } else { boundaries.iter().position(|b| *b == c).unwrap() + 1 };
+        if sniffing {
+            if j == 0 {
+                if !p.recs.is_empty() {
+                    return fail("C11.a-prefix", format!("empty file, but {} record(s) were read", p.recs.len()));
+                }
+                return Ok(());
+            }
+            match &p.kind_reported {
+                None => {}
+                Some(Ok(k)) if *k == kind => {}
+                Some(Err(e)) if eintr_on && w.eintr_total.get() > 0 && e.contains("EINTR") => return Ok(()),
+                other => return fail("C11.c-sniff", format!("wrote {:?}, sniffer reported {:?}", kind, other)),
+            }
+        }
+        return check_roundtrip(w, "C11.a-prefix", p, &recs[..j], eintr_on);
+    }
+    if kind == Kind::Fastq {
+        // every Ok record that passes check() is one of the originals, in original order
+        w.clause("C11.e-cut-check");
+        let parsed_kind_ok = !sniffing || matches!(p.kind_reported, Some(Ok(Kind::Fastq)));
+        if parsed_kind_ok {
+            let mut k = 0usize;
+            for (i, r) in p.recs.iter().enumerate() {
+                if !p.checks.get(i).copied().unwrap_or(false) {
+                    continue;
+                }
+                let mut found = false;
+                while k < recs.len() {
+                    k += 1;
+                    if recs[k - 1] == *r {
+                        found = true;
+                        break;
                     }
                 }
-                return check_roundtrip(w, "C11.a-prefix", &p, &recs[..j], eintr_on);
-            }
-            if kind == Kind::Fastq {
-                // every Ok record that passes check() is one of the originals, in original order
-                w.clause("C11.e-cut-check");
-                let parsed_kind_ok = !sniffing || matches!(p.kind_reported, Some(Ok(Kind::Fastq)));
-                if parsed_kind_ok {
-                    let mut k = 0usize;
-                    for (i, r) in p.recs.iter().enumerate() {
-                        if !p.checks.get(i).copied().unwrap_or(false) {
-                            continue;
-                        }
-                        let mut found = false;
-                        while k < recs.len() {
-                            k += 1;
-                            if recs[k - 1] == *r {
-                                found = true;
-                                break;
-                            }
-                        }
-                        if !found {
-                            return fail(
-                                "C11.e-cut-check",
-                                format!(
-                                    "stream cut at byte {}: record #{} {} passes check() but is not one of the written records in order",
-                                    c,
-                                    i,
-                                    r.json()
-                                ),
-                            );
-                        }
-                    }
+                if !found {
+                    return fail(
+                        "C11.e-cut-check",
+                        format!(
+                            "stream cut at byte {}: record #{} {} passes check() but is not one of the written records in order",
+                            c,
+                            i,
+                            r.json()
+                        ),
+                    );
                 }
             }
-            Ok(())
         }
     }
+    Ok(())
+}
+
+/// Every cut offset of one small file, each with a freshly drawn reader and read schedule.
+fn cut_sweep(w: &W, kind: Kind) -> Verdict {
+    let mut recs = gen_records(w, kind, false);
+    recs.truncate(3);
+    for r in recs.iter_mut() {
+        r.seq.truncate(12);
+        r.qual.truncate(12);
+    }
+    if recs.is_empty() {
+        return Ok(());
+    }
+    w.probe("workload_nonempty");
+    w.probe("cut_sweep");
+    let crlf = w.chance(1, 2);
+    let splits: Vec<Vec<usize>> = recs.iter().map(|r| split_points(w, r.seq.len(), 3)).collect();
+    let img = layout(kind, &recs, &splits, crlf);
+    let faults_on = w.chance(3, 4);
+    w.fired("cut");
+    if crlf {
+        w.fired("crlf");
+    }
+    if w.keep_trace {
+        w.note("format", json!(format!("{:?}", kind)));
+        w.note("workload", json!(recs.iter().map(|r| r.json()).collect::<Vec<_>>()));
+        w.note("full_image", json!(show(&img.bytes)));
+        w.note("sweep", json!(format!("every cut offset 0..={}", img.bytes.len())));
+    }
+    for c in 0..=img.bytes.len() {
+        let mut rc = gen_reader_cfg(w, true, false);
+        if !faults_on {
+            rc.io = IoCfg::CLEAN;
+        }
+        let data = Rc::new(img.bytes[..c].to_vec());
+        let (p, _) = consumer_phase(w, kind, &data, &rc);
+        if !p.ended {
+            return fail("C11.d-livelock", format!("cut at {}: iterator yielded {} items for a {}-byte stream without ending", c, p.items, data.len()));
+        }
+        if let Err(mut v) = judge_cut(w, kind, &recs, &img.boundaries, c, &p, rc.ctor >= 4, false) {
+            v.message = format!("cut at {} of {} with reader {}: {}", c, img.bytes.len(), rc.json(), v.message);
+            return Err(v);
+        }
+    }
+    Ok(())
+}
+
+fn fa_cut_sweep(w: &W) -> Verdict {
+    cut_sweep(w, Kind::Fasta)
+}
+fn fq_cut_sweep(w: &W) -> Verdict {
+    cut_sweep(w, Kind::Fastq)
 }
 
 fn fa_roundtrip(w: &W) -> Verdict {
@@ -1099,7 +1156,11 @@ fn fx_garbage(w: &W) -> Verdict {
         rc.io = IoCfg::CLEAN;
     }
     let data = Rc::new(bytes);
-    note_common(w, kind, &recs, None, &rc, &data);
+    note_common(w, &rc, &data);
+    if w.keep_trace {
+        w.note("format", json!(format!("{:?}", kind)));
+        w.note("valid_file_before_corruption", json!(recs.iter().map(|r| r.json()).collect::<Vec<_>>()));
+    }
     w.clause("C11.d-nopanic");
     w.clause("C11.d-livelock");
     let (p, _cuts) = consumer_phase(w, kind, &data, &rc);
@@ -1127,6 +1188,8 @@ pub fn property() -> Property {
             Scenario { name: "fa-cut", weight: 2, run: fa_cut },
             Scenario { name: "fq-cut", weight: 3, run: fq_cut },
             Scenario { name: "fx-garbage", weight: 2, run: fx_garbage },
+            Scenario { name: "fa-cut-sweep", weight: 1, run: fa_cut_sweep },
+            Scenario { name: "fq-cut-sweep", weight: 1, run: fq_cut_sweep },
         ],
         panic_clause: "C11.d-nopanic",
         livelock_clause: "C11.d-livelock",
@@ -1143,7 +1206,7 @@ pub fn property() -> Property {
             "header_split_across_reads", "cr_lf_in_different_reads", "utf8_char_split_across_reads", "first_byte_delivered_alone",
             "cut_at_record_boundary", "cut_inside_header", "cut_inside_plus_line", "cut_inside_quality", "cut_inside_sequence", "cut_inside_terminator",
             "quality_starts_with_at", "quality_starts_with_plus", "writer_buffer_smaller_than_field", "relayout_multiline_crlf",
-            "sniffer_used", "large_regime", "garbage_invalid_utf8", "garbage_rejected_with_error",
+            "sniffer_used", "large_regime", "cut_sweep", "garbage_invalid_utf8", "garbage_rejected_with_error",
         ],
         quick_runs: 400_000,
         thorough_runs: 30_000_000,
